@@ -5,12 +5,47 @@ ROOT = os.path.dirname(os.path.abspath(__file__))
 props = [json.loads(l) for l in open(os.path.join(ROOT, 'properties.jsonl'))]
 
 # property -> (category, technique, text, note, design_ref)
+TB = ('Trusted: Lean 4.33 kernel; axioms propext/Classical.choice/Quot.sound only (audited per theorem on every run); the '
+      'hand-written model is tied to the code by the correspondence run of this check (real classes vs model on generated cases, '
+      'generator coverage reported in the evidence); ')
+
 CLAIMED = {
  'C01': ('proof', 'Lean 4 theorems over a hand-written codec model + differential correspondence with packet.py',
-         'Round-trip, placeholder numbering, header adjacency and hand-back theorems are proved in Lean for all packets; '
-         'the model is tied to packet.py on every run by running encode/decode of both on generated, mutated and random frames.',
-         'Trusted: Lean kernel; propext/Classical.choice/Quot.sound; the correspondence harness and its generators; '
-         'json.dumps/loads as compared with the Lean printer; isdigit()/int() table for non-ASCII digits.', '§5 C01'),
+         'Round-trip, depth-first placeholder numbering, header adjacency, hand-back and spec-codec theorems are proved in Lean for all '
+         'packets; the model is tied to packet.py on every run by running encode/decode of both on generated, mutated and random frames.',
+         TB + 'json.dumps/loads as compared with the Lean printer/reader; isdigit()/int() table for non-ASCII digits.', '§5 C01'),
+ 'C03': ('proof', 'Lean 4 refinement + invariant theorems over a relation model of the rooms; correspondence with Manager/AsyncManager inside real servers',
+         'Exact-recipient-set, no-duplicate, refinement-to-spec and after-leave theorems hold for every finite history; histories are run '
+         'on real Server+Manager and AsyncServer+AsyncManager, on the model and on a dict-of-sets oracle.',
+         TB + 'bidict semantics; engine.io generate_id never repeats.', '§5 C03'),
+ 'C04': ('proof', 'Lean 4 invariants over the server-core model (histories) and the scheduler model (asyncio interleavings); correspondence with Server/AsyncServer over real engine.io cores',
+         'Connect/refuse/duplicate/disconnect-once clauses as theorems over arbitrary histories of the server model; every scenario is '
+         'executed on both real server families and the model, and judged by an independent wire-level oracle.',
+         TB + 'engine.io contract (sequential delivery per transport, exception containment, fresh ids).', '§5 C04'),
+ 'C05': ('proof', 'Lean 4 theorems over the server-core model; correspondence with Server/AsyncServer',
+         'One invocation / one ACK to the sender only / reassembly / arrival order as theorems about Server.step; scenarios with several '
+         'clients, ids colliding across clients, binary arguments and all handler kinds run on both families and the model.',
+         TB + 'engine.io contract.', '§5 C05'),
+ 'C06': ('proof', 'Lean 4 invariants over the server-core model; correspondence with Server/AsyncServer incl. scripted call() waits',
+         'Id uniqueness, callback-only-on-matching-ack, foreign/duplicate ACK inert, none-after-disconnect, call() result as theorems; '
+         'adversarial ACK streams on both families and the model.',
+         TB + 'call(): the wait primitive is scripted.', '§5 C06'),
+ 'C11': ('proof', 'Lean 4 erase/fresh theorems over the server-core model; correspondence under fault scripts; model-free object-graph probe',
+         'After transport loss nothing in the model state mentions the transport (theorem, any prefix history, any handler raising); the '
+         'real servers are searched for references after every loss and their object graph is walked after 1/10/100 come-and-go clients.',
+         TB + 'memory = reachable object graph (allocator not modelled; labelled partial in DESIGN).', '§5 C11'),
+ 'C13': ('proof', 'Lean 4 theorems over arbitrary registries + reserved lists regenerated from source; exhaustive correspondence with the four real classes',
+         'The precedence table is a theorem for every registry; reserved-event lists are regenerated from the source on every run; all '
+         '2^6 x variants configurations are executed on Server/AsyncServer/Client/AsyncClient.',
+         TB + 'the ast translator of reserved_events (validated dynamically).', '§5 C13'),
+ 'C16': ('proof', 'Lean 4 theorems over the session part of the server-core model; correspondence with Server/AsyncServer',
+         'read-your-write, privacy across clients and namespaces, context manager = get;set;save as theorems; fresh-session clause is '
+         'false on the unchanged tree (known finding, negation witness proved) and proved under the explicit hypothesis.',
+         TB + 'engine.io session dict lives as long as the socket.', '§5 C16'),
+ 'C17': ('proof', 'Lean 4 theorems over a forwarding table regenerated from the source by an ast translator; exhaustive execution of every helper on recording stubs',
+         'Faithful-forwarding is decided by `decide` over the regenerated table and lifted to every environment by eval_faithful; the '
+         'translator is validated by executing each helper for every subset of optional arguments.',
+         TB + 'the ast translator (validated dynamically on every run).', '§5 C17'),
 }
 
 def main():
@@ -31,7 +66,7 @@ def main():
           for p in props if p['id'] not in CLAIMED]
     m = {
         'version': 1,
-        'setup_cmd': 'cd lean && lake build Sio siodriver',
+        'setup_cmd': 'bin/setup',
         'hooks': {'guard': 'PYTHON_SOCKETIO_VERIF', 'enable': 'no source hooks: the harness subclasses/wraps the real classes in-process; the variable is set by ./check for completeness',
                   'baseline_off_cmd': 'cd /repo && /venv/bin/python -m pytest -ra -q -p no:cacheprovider --timeout=900 --continue-on-collection-errors',
                   'source_commits': [], 'add_only': True},
